@@ -84,6 +84,18 @@ func (s *Session) New(nf NewFaults, cfg Config) string {
 	return out
 }
 
+// Run drives controller.run with scripted state functions and emits it.
+func (s *Session) Run(script []RunIter) string {
+	out := RunScript(script)
+	s.op(RunOp(script), out, true)
+	s.R.Count(fmt.Sprintf("run.iters=%d", len(script)))
+	s.R.Count(fmt.Sprintf("run.waits=%d", strings.Count(out, "w:")))
+	if strings.Contains(out, "w:j") {
+		s.R.Count("run.jitter-wait")
+	}
+	return out
+}
+
 // Net switches the world's network (scanners flagged N) and emits it.
 func (s *Session) Net(down bool) {
 	s.W.NetDown = down
